@@ -133,6 +133,11 @@ class TermBuilder:
             if t == ("env",) or t == ("deref", ("env",)):
                 idx = int(e[1]) if e[1].isdigit() else e[1]
                 return ("upvar", self.fn.upvars.get(idx, idx))
+            if t[0] == "dc" and isinstance(t[1], tuple) and t[1] and t[1][0] == "agg" and t[1][2] == t[2] and t[1][3]:
+                # a field of a value that was just built as this variant: the operand it was built from
+                agg = t[1]
+                if e[1].isdigit() and int(e[1]) < len(agg[3]):
+                    return agg[3][int(e[1])]
             if e[1] == "0" and t[0] == "dc" and t[2] == "Some" and isinstance(t[1], tuple) and t[1] and t[1][0] == "call" and len(t[1][2]) >= 1:
                 # the payload of `s.first()` is `&s[0]`, of `s.get(i)` is `&s[i]` / `&s[range]`: name it like the indexing expression
                 cal = t[1][1]
